@@ -775,8 +775,14 @@ class CallMixin:
             elif nm == "tuple":
                 res = res or isinstance(v, tuple)
             elif isinstance(v, SV) and v.ty.name == "Ref":
-                res = res or self.engine.model_subclass(v.ty.args[0].name, nm)
-        return res
+                cls = v.ty.args[0].name
+                if self.engine.model_subclass(cls, nm):
+                    res = True
+                elif nm in C.CLASSES and self.engine.model_subclass(nm, cls) and self.field_info(cls, "__is_" + nm) is not None:
+                    # the static type is a base of nm: the dynamic type is the boolean view __is_<nm> of the base model
+                    dyn = ctx.term(self.field_read(v, "__is_" + nm), BOOL)
+                    res = dyn if res is False else z3.Or(ctx.zbool(res), dyn)
+        return res if isinstance(res, bool) else SV(BOOL, res)
 
     def to_str(self, v):
         ctx = self.ctx
